@@ -16,7 +16,7 @@ def bmc_name(recipe):
 
 
 def make_names(rng, recipes, style=None, ext=None):
-    style = style or rng.choice(["bmc", "plain", "mixed", "numeric"])
+    style = style or rng.choice(["bmc", "plain", "mixed", "numeric", "digits"])
     names = []
     for i, r in enumerate(recipes):
         if style == "bmc":
@@ -28,8 +28,12 @@ def make_names(rng, recipes, style=None, ext=None):
             n = str(rng.choice([1, 2, 9, 10, 11, 100, 20, 3])) + "_%08X" % r["eid"]
         else:
             n = rng.choice([bmc_name(r), "log-%08X" % r["eid"], "PEL%02d" % i, "x%d" % (10 - i)])
+        if style == "digits":
+            n = str(rng.choice([1, 2, 9, 10, 11, 100, 20, 3, 5, 1000]) + 3 * i * 1000)
         if ext:
             n += rng.choice(ext)
+            if rng.random() < 0.06:
+                n = rng.choice(ext).lstrip(".") or n           # a file called just "pel": no extension at all
         while n in names:
             n += "_"
         names.append(n)
@@ -163,7 +167,7 @@ def gen_store(rng, n, *, style=None, ext=None, id_magnitude=None, refpool=None, 
               classes=None, ud_targets=None, dup_plid=0.3, links=0):
     """n well-formed PELs with distinct entry ids; file names are unambiguous:
     no name contains the 8-digit entry id of another file."""
-    style = style or rng.choice(["bmc", "bmc", "plain", "mixed", "numeric"])
+    style = style or rng.choice(["bmc", "bmc", "plain", "mixed", "numeric", "digits"])
     recipes, eids = [], set()
     for i in range(n):
         for _ in range(50):
